@@ -3,7 +3,7 @@
 (* evaluator on operands bound in the scope, with the raw decimal128 parts  *)
 (* of the result (hook H2).  Decimal.tla decides whether the result is the  *)
 (* correctly rounded one (or null exactly when it must be).                 *)
-EXTENDS Decimal, TLC, Json, IOUtils
+EXTENDS DecimalExp, TLC, Json, IOUtils
 
 Recs == ndJsonDeserialize(IOEnv.TRACE)
 
@@ -32,19 +32,8 @@ Verdict(r) ==
                 THEN OK ELSE "the result depends on the scale (trailing zeros) of operands of equal value"
     [] op = "odd" -> IF r.code = B3(Odd(a)) THEN OK ELSE "odd() wrong"
     [] op = "even" -> IF r.code = B3(Even(a)) THEN OK ELSE "even() wrong"
-    [] op = "exp" -> \* accuracy not modelled yet; range and finiteness are: e^x exceeds the range from x = 14150
-                IF Compare(a, [s |-> 0, c |-> <<1, 4, 1, 5>>, e |-> 1]) >= 0
-                THEN (IF o.k = "num" /\ ~o.fin THEN "overflow: an infinite or NaN value was produced instead of null"
-                      ELSE IF o.k = "null" THEN OK ELSE "the result lies outside the decimal128 range: null expected")
-                ELSE IF o.k = "num" /\ ~o.fin THEN "an infinite or NaN value was produced for a representable result"
-                ELSE IF Compare(a, [s |-> 0, c |-> <<1, 4, 1, 4>>, e |-> 1]) <= 0 /\ Compare(a, [s |-> 1, c |-> <<1, 4, 1, 4>>, e |-> 1]) >= 0
-                     /\ (o.k # "num" \/ IsZ(o) \/ o.s = 1) THEN "exp of a moderate argument must be a positive number"
-                ELSE Unspec
-    [] op = "log" -> IF o.k = "num" /\ ~o.fin THEN "an infinite or NaN value was produced"
-                     ELSE IF IsZ(a) \/ a.s = 1 THEN ExpectNull(o, "log of a non-positive number must yield null")
-                     ELSE IF o.k # "num" THEN "log of a positive number must be a number"
-                     ELSE IF (o.s = 1 /\ ~IsZ(o)) # (Compare(a, [s |-> 0, c |-> <<1>>, e |-> 0]) < 0) THEN "log has the wrong sign"
-                     ELSE Unspec
+    [] op = "exp" -> AcceptExp(a, o)          \* DecimalExp: within two units in the last place of the exact value
+    [] op = "log" -> AcceptLn(a, o)
     [] OTHER -> \* non-integer powers: accuracy not modelled yet; finiteness is
                 IF o.k = "num" /\ ~o.fin THEN "an infinite or NaN value was produced" ELSE Unspec
 
